@@ -306,38 +306,50 @@ Section Mat.
      matrix Ev has one ROW per unknown (so "x is in the kernel" reads  x * Ev ~ 0, x a
      row vector of length m).  Certificate:  P * K + Ev * Q = I_m  and  K * Ev = 0.  Then
      EVERY kernel vector x is the combination  (x * P) * K  of the rows of K. *)
-  Definition check_kernel_cert (m : nat) (Ev K P Q : list (list R)) : bool :=
+  Definition check_kernel_cert (m : nat) (Ev K P Q : list (list R)) (d dinv : R) : bool :=
     forallb (fun b => Nat.eqb (length b) m) K &&
     forallb (fun b => vzero (lincomb O b Ev)) K &&
     Nat.eqb (length P) (length Ev) &&
-    mat_eqb (madd (mmul m P K) (mmul m Ev Q)) (ident m).
+    mat_eqb (madd (mmul m P K) (mmul m Ev Q)) (sident d m) &&
+    reqb (d * dinv) z1.
 
-  Theorem kernel_cert_sound m Ev K P Q :
-    check_kernel_cert m Ev K P Q = true ->
+  Lemma lincomb_vscale k c x M : veq (lincomb k (vscale c x) M) (vscale c (lincomb k x M)).
+  Proof. intros i. rewrite nz_vscale, !nz_lincomb. apply vdot_vscale_l. Qed.
+
+  (* P*K + Ev*Q = d*I (d invertible; d is a common denominator so that P, Q can be integral) *)
+  Theorem kernel_cert_sound m Ev K P Q d dinv :
+    check_kernel_cert m Ev K P Q d dinv = true ->
     forall x kk, length x = m -> veq (lincomb kk x Ev) [] ->
-      x = lincomb m (lincomb (length K) x P) K.
+      x = lincomb m (vscale dinv (lincomb (length K) x P)) K.
   Proof.
     unfold check_kernel_cert. intros H x kk Hx Hker.
+    apply andb_true_iff in H; destruct H as [H Hd].
     apply andb_true_iff in H; destruct H as [H HI].
     apply andb_true_iff in H; destruct H as [H HPE].
     apply andb_true_iff in H; destruct H as [HK HKE].
-    apply forallb_len_Forall in HK. apply mat_eqb_eq in HI. apply Nat.eqb_eq in HPE.
+    apply forallb_len_Forall in HK. apply mat_eqb_eq in HI. apply Nat.eqb_eq in HPE. apply reqb_eq in Hd.
     apply veq_eq; [rewrite length_lincomb by exact HK; exact Hx|].
-    apply veq_trans with (lincomb m x (ident m)); [apply veq_sym, lincomb_ident; lia|].
-    rewrite <- HI.
-    eapply veq_trans; [apply lincomb_madd; unfold mmul; rewrite !map_length; exact HPE|].
-    eapply veq_trans.
-    { apply veq_vadd; apply veq_sym; apply lincomb_assoc. }
-    apply vadd_nil_r_veq.
-    apply lincomb_nil_veq. exact Hker.
+    (* d * x ~ (x*P)*K *)
+    assert (E : veq (vscale d x) (lincomb m (lincomb (length K) x P) K)).
+    { apply veq_trans with (lincomb m x (sident d m)); [apply veq_sym, lincomb_sident; lia|].
+      rewrite <- HI.
+      eapply veq_trans; [apply lincomb_madd; unfold mmul; rewrite !map_length; exact HPE|].
+      eapply veq_trans.
+      { apply veq_vadd; apply veq_sym; apply lincomb_assoc. }
+      apply vadd_nil_r_veq.
+      apply lincomb_nil_veq. exact Hker. }
+    eapply veq_trans; [|apply veq_sym, lincomb_vscale].
+    intros i. rewrite nz_vscale, <- (E i), nz_vscale.
+    transitivity ((d * dinv) * nz x i); [rewrite Hd; ring | ring].
   Qed.
 
   (* the rows of K really are kernel vectors, and so is every combination of them *)
-  Theorem kernel_cert_rows m Ev K P Q :
-    check_kernel_cert m Ev K P Q = true ->
+  Theorem kernel_cert_rows m Ev K P Q d dinv :
+    check_kernel_cert m Ev K P Q d dinv = true ->
     forall c kk k2, veq (lincomb kk (lincomb k2 c K) Ev) [].
   Proof.
     unfold check_kernel_cert. intros H c kk k2.
+    apply andb_true_iff in H; destruct H as [H Hd].
     apply andb_true_iff in H; destruct H as [H HI].
     apply andb_true_iff in H; destruct H as [H HPE].
     apply andb_true_iff in H; destruct H as [HK HKE].
@@ -435,7 +447,7 @@ Arguments nz {R} _ _. Arguments veq {R} _ _. Arguments vadd {R} _ _. Arguments v
 Arguments zeros {R} _. Arguments vdot {R} _ _. Arguments lincomb {R} _ _ _.
 Arguments col {R} _ _. Arguments mmul {R} _ _ _. Arguments madd {R} _ _. Arguments sident {R} _ _. Arguments ident {R} _.
 Arguments vzero {R} _. Arguments vec_eqb {R} _ _. Arguments mat_eqb {R} _ _.
-Arguments check_kernel_cert {R} _ _ _ _ _. Arguments check_independent {R} _ _ _.
+Arguments check_kernel_cert {R} _ _ _ _ _ _ _. Arguments check_independent {R} _ _ _.
 Arguments check_generates {R} _ _ _ _ _ _ _ _.
 
 (* ---- the ring of integers ---- *)
